@@ -91,6 +91,7 @@ def random_lle_trace(seed, tid, method):
     rng = random.Random(seed)
     w = dl.LLEWorld(method, k=rng.choice([1e-3, 1e3, 7.]))
     steps = []
+    last_comp, last_T = None, 300.
     for n in range(rng.randint(2, 5)):
         ids = rng.sample(dl.LLE_IDS, rng.randint(2, 5))
         if not ({'Water'} & set(ids)) or not ({'Octane', 'Butanol', 'EthylAcetate'} & set(ids)):
@@ -101,12 +102,15 @@ def random_lle_trace(seed, tid, method):
             comp = {i: rng.choice([1., 2., 5., 10., 0.5]) for i in ids}
             if len(ids) > 2 and rng.random() < 0.2:
                 comp[rng.choice(ids)] = rng.choice([1e-3, 3e-4])       # a minor component (below 1e-6 kmol/hr in the feed scaled by 1e-3)
+        repeat = bool(steps) and comp == last_comp and rng.random() < 0.5
         last_comp = comp
-        T = rng.choice([rng.uniform(285, 355), 298.15, 310., 330.])
+        # (an exact repeat of the previous call - same material, same temperature - is the case in which the solver may reuse)
+        T = last_T if repeat else rng.choice([rng.uniform(285, 355), 298.15, 310., 330.])
+        last_T = T
         Ti = int(round(T * 1000))
         zname = 'r' + '_'.join('%s%g' % (k[:2], v) for k, v in sorted(comp.items()))
         a = dict(T=Ti, z=zname, cs='r' + ''.join(sorted(i[:2] for i in comp)), uc=rng.random() < 0.8)
-        obs = w.lle(a, comp, T, rng.choice(['none', 'none'] + list(comp)))
+        obs = w.lle(a, comp, T, rng.choice(list(comp)) if repeat and rng.random() < 0.7 else rng.choice(['none', 'none'] + list(comp)))
         steps.append(dict(op='lle', a=a, post=w.project(), obs=obs))
     return dict(id=tid, mode='seq', init=dict(T=0, z='none', cs='none'), steps=steps)
 
@@ -120,6 +124,8 @@ def sle_trace(seed, tid):
             w.change_solvents(rng)
         if n and rng.random() < 0.3:
             w.switch_solute()
+        if n and rng.random() < 0.3:
+            w.change_amount(rng)
         T = rng.uniform(250, 450)
         sol = rng.choice([None, None, None, 0.001, 0.05, 0.3, 0.9, 0., 1.])
         obs = w.sle(T, sol)
